@@ -36,8 +36,12 @@ def gen_case(ctx: Ctx, rng: random.Random) -> dict:
     else:
         t0 = ctx.instant()
         tod = ctx.tod()
-    kind = rng.choice(['time', 'time', 'interval', 'group', 'filtered', 'op'])
-    if kind == 'time':
+    kind = rng.choice(['time', 'time', 'interval', 'group', 'filtered', 'op', 'finterval'])
+    if kind == 'finterval':
+        # a filtered interval whose start lies less than one interval after the creation (or long before it)
+        iv = rng.choice([6 * HOUR, DAY, 90 * MIN])
+        e = ['interval', t0 + rng.choice([17 * MIN, iv // 2, iv - MIN, -5 * DAY]), iv, ctx.filt(0, True, True)]
+    elif kind == 'time':
         e = ['time', tod, rng.choice(['skip', 'earlier', 'later', 'after']), rng.choice(['skip', 'earlier', 'later', 'twice']), None]
     elif kind == 'interval':
         e = ['interval', t0 - rng.choice([0, 17 * MIN, 5 * DAY]), rng.choice([6 * HOUR, DAY, 90 * MIN, 25 * HOUR]), None]
